@@ -1,0 +1,9 @@
+//go:build verif
+
+package search
+
+import "github.com/paulsonkoly/chess-3/transp"
+
+// VerifTable exposes the search's transposition table to the verification harness, so that a check can leave
+// an entry under a chosen key (the state a signature collision leaves behind) before a search.
+func (s *Search) VerifTable() *transp.Table { return s.tt }
